@@ -1,0 +1,20 @@
+//go:build verif
+// +build verif
+
+package rogger
+
+import "time"
+
+// Read-only accessors for the flush protocol (build tag verif only).
+
+// VerifFlushRequested reports whether FlushLogger has signalled the flusher (syncDone cancelled).
+func VerifFlushRequested() bool { return syncDone.Err() != nil }
+
+// VerifFlushDone reports whether the flusher has acknowledged the flush (asyncDone cancelled).
+func VerifFlushDone() bool { return asyncDone.Err() != nil }
+
+// VerifQueueCap returns the capacity of the log queue.
+func VerifQueueCap() int { return cap(logQueue) }
+
+// VerifWaitFlushTimeout returns how long FlushLogger waits for the flusher.
+func VerifWaitFlushTimeout() time.Duration { return waitFlushTimeout }
